@@ -272,7 +272,18 @@ class AbstractExcelInPython(ABC):
             )
         )
 
+    @staticmethod
+    def _lookup_vector(lookup_array):
+        # the keys one below the other, whatever was handed over: a single cell is an area of one cell, a single row of
+        # several cells is searched along the row, a plain list of values (a row or column taken by INDEX) as it stands
+        if not isinstance(lookup_array, list):
+            return [[lookup_array]]
+        if len(lookup_array) == 1 and isinstance(lookup_array[0], list):
+            return [[value] for value in lookup_array[0]]
+        return [value if isinstance(value, list) else [value] for value in lookup_array]
+
     def _match(self, lookup_value, lookup_array: List, match_type: int = 0):
+        lookup_array = self._lookup_vector(lookup_array)
         lookup_value_type = int if isinstance(lookup_value, self.EmptyCell) else type(lookup_value)
         if lookup_value_type in (int, float):
             # 2.0 and 2 are the same number for Excel
@@ -309,6 +320,7 @@ class AbstractExcelInPython(ABC):
 
     def _xmatch(self, lookup_value, lookup_array: List, match_mode: int = 0, search_mode: int = 1):
         # TODO wildcard match
+        lookup_array = self._lookup_vector(lookup_array)
         output_value = 0
         match match_mode:
             case -1:
